@@ -50,6 +50,9 @@ func main() {
 			if fd.Name.Name == "translateAssign" {
 				assignDecision(fset, filepath.Base(name), fd)
 			}
+			if fd.Name.Name == "translateArgs" {
+				guardedCalls(fset, filepath.Base(name), fd, map[string]bool{"translateImplicitConversionWithCloning": true, "translateImplicitConversion": true, "translateExpr": true, "translateConversion": true})
+			}
 			if fd.Name.Name == "makeReceiver" {
 				receiverDecision(fset, filepath.Base(name), fd)
 			}
@@ -184,4 +187,81 @@ func receiverDecision(fset *token.FileSet, file string, fd *ast.FuncDecl) {
 		}
 		return true
 	})
+}
+
+// guardedCalls prints, for every call of one of the named methods inside fd, the chain of conditions (if / switch /
+// type switch, through loops) under which it is reached: `what` = "arg-translation: <callee>(<args>) <= <conds>".
+// For translateArgs this is the per-argument-form decision "clone or not".
+func guardedCalls(fset *token.FileSet, file string, fd *ast.FuncDecl, names map[string]bool) {
+	report := func(n ast.Node, conds []string) {
+		ast.Inspect(n, func(m ast.Node) bool {
+			switch m.(type) {
+			case *ast.BlockStmt, *ast.FuncLit:
+				return false
+			}
+			if c, ok := m.(*ast.CallExpr); ok {
+				if sl, ok := c.Fun.(*ast.SelectorExpr); ok && names[sl.Sel.Name] {
+					var as []string
+					for _, a := range c.Args {
+						as = append(as, src(fset, a))
+					}
+					fmt.Printf("%s\t%s\targ-translation: %s(%s) <= %s\t%d\n", file, fd.Name.Name, sl.Sel.Name, strings.Join(as, ", "), strings.Join(conds, " && "), fset.Position(c.Pos()).Line)
+				}
+			}
+			return true
+		})
+	}
+	var walk func(n ast.Stmt, conds []string)
+	walkList := func(l []ast.Stmt, conds []string) {
+		for _, st := range l {
+			walk(st, conds)
+		}
+	}
+	walk = func(n ast.Stmt, conds []string) {
+		switch x := n.(type) {
+		case nil:
+		case *ast.BlockStmt:
+			walkList(x.List, conds)
+		case *ast.IfStmt:
+			c := src(fset, x.Cond)
+			if x.Init != nil {
+				report(x.Init, conds)
+				c = src(fset, x.Init) + "; " + c
+			}
+			report(x.Cond, conds)
+			walk(x.Body, append(append([]string{}, conds...), c))
+			if x.Else != nil {
+				walk(x.Else, append(append([]string{}, conds...), "!("+c+")"))
+			}
+		case *ast.ForStmt:
+			walk(x.Body, conds)
+		case *ast.RangeStmt:
+			walk(x.Body, conds)
+		case *ast.SwitchStmt:
+			for _, cc := range x.Body.List {
+				cl := cc.(*ast.CaseClause)
+				var ls []string
+				for _, e := range cl.List {
+					ls = append(ls, src(fset, e))
+				}
+				tag := ""
+				if x.Tag != nil {
+					tag = src(fset, x.Tag)
+				}
+				walkList(cl.Body, append(append([]string{}, conds...), "switch "+tag+" case "+strings.Join(ls, ",")))
+			}
+		case *ast.TypeSwitchStmt:
+			for _, cc := range x.Body.List {
+				cl := cc.(*ast.CaseClause)
+				var ls []string
+				for _, e := range cl.List {
+					ls = append(ls, src(fset, e))
+				}
+				walkList(cl.Body, append(append([]string{}, conds...), "switch "+src(fset, x.Assign)+" case "+strings.Join(ls, ",")))
+			}
+		default:
+			report(n, conds)
+		}
+	}
+	walk(fd.Body, nil)
 }
